@@ -48,6 +48,22 @@ def gen(rng, params):
                 }
             }
         })
+    if rng.random() < params.get('p_pollute', 0.45):
+        # another invocation with other flags shares the working directory
+        # first (as a user does): same domain with the other value of the
+        # straight-panel switch, or another problem on the same domain
+        other = dict(spec)
+        if rng.random() < 0.5:
+            other['pw_exact'] = not spec['pw_exact']
+        else:
+            alts = [p for p in PROBLEMS
+                    if domain in PROBLEMS[p] and p != problem]
+            other['problem'] = rng.choice(alts)
+            other['h_h2'] = False
+        phases.insert(rng.randrange(len(phases) + 1), {
+            'workers': rng.randint(1, 16),
+            'sched_seed': rng.randrange(1 << 30),
+            'spec': other, 'max_iter': rng.choice([1, 2])})
     final = {'workers': rng.randint(1, 16),
              'sched_seed': rng.randrange(1 << 30)}
     if rng.random() < 0.3:
@@ -101,6 +117,19 @@ def execute(run, cov, log):
         for i, ph in enumerate(run['phases']):
             cov.inc('ops')
             cov.inc('opkind.driver_faulty_run')
+            if 'spec' in ph:
+                # foreign invocation sharing the directory; its own trace is
+                # not judged here
+                cov.inc('probe.foreign_invocation_shares_directory')
+                code, events = driver.run_driver(
+                    driver.driver_args(ph['spec']), b, ph['workers'],
+                    ph['sched_seed'], ph['max_iter'])
+                absorb(events)
+                if code != 0:
+                    raise Violation(PROP, 'exception', 'driver/exit',
+                                    dict(ctx, exit_code=code, phase=i,
+                                         foreign=ph['spec']))
+                continue
             code, events = driver.run_driver(
                 argv, b, ph['workers'], ph['sched_seed'], run['max_iter'],
                 crash=ph.get('crash'), save_fault=ph.get('save_fault'))
